@@ -10,3 +10,5 @@ import RepidProofs.Props.C04
 import RepidProofs.Props.C06
 import RepidProofs.Props.C13
 import RepidProofs.Props.C16
+import RepidProofs.Props.C09
+import RepidProofs.Props.C10
